@@ -621,7 +621,8 @@ fn run_case(ctx: &mut Ctx, cid: usize, case: &Case, thorough: bool, out: &mut Ve
         && ops.iter().zip(spawned.iter()).all(|(o, s)| o.0 == s.1)
         && ops.iter().all(|o| op_kind(&o.0) != "other");
     let nofault_class = nf.outcome.class();
-    if !names_ok || nofault_class != "ok" || nf.panics > 0 {
+    // (a statement that is expected to fail by itself is judged on that alone, whatever it returned)
+    if !names_ok || nofault_class != "ok" || nf.panics > 0 || !case.expect.is_empty() {
         // statements that fail (or whose operator panics) by themselves: only the model-free
         // oracle applies — a statement in which an operator task panicked must not return Ok.
         rec(json!({"type": "nofault-only", "class": nofault_class, "panics": nf.panics, "expect": case.expect,
